@@ -182,7 +182,17 @@ class C16(Prop):
             eff = set(root["selected"]) if (sel is None and root.get("selected") is not None) else outputs
         else:
             eff = set(sel)
+        # ordering-only names: signals emitted at this level or inside a nested graph (exposed under the wrapper's output names)
+        ordering_only = {e for n in root["nodes"] for e in n.get("emits", [])}
+        for n in root["nodes"]:
+            if n["kind"] == "graph":
+                ren = dict(n.get("outRen", []))
+                inner = program[n["inner"]]
+                data = {o for m in inner["nodes"] for o in m.get("dataOuts", [])}
+                ordering_only |= {ren.get(e, e) for m in inner["nodes"] for e in m.get("emits", []) if e not in data}
         for k, v in obs["values"]:
+            if k in ordering_only:
+                return f"result contains the ordering-only name {k!r} (value {v!r})"
             if k not in outputs:
                 return f"result contains {k!r}, which is not a declared output of the graph"
             if k not in eff:
